@@ -129,15 +129,22 @@ def run(ctx):
         return
 
     # 1. model checking + behaviour emission
-    defs = {"MaxReq": "2", "KCover": "1", "Statuses": "{200}"} if quick else {"MaxReq": "3", "KCover": "2", "Statuses": "{200, 500}"}
-    m = ctx.tlc("Lifecycle", defines=defs, timeout=1500, tag="cover")
-    if m.violated:
-        raise MachineryFault("Lifecycle.tla: mechanism layer violates requirement layer on the model: %s "
-                             "(a lead, not a verdict - see tlc output)" % m.violated)
-    beh_files = [m.beh_path]
+    if quick:
+        covers = [{"MaxReq": "2", "KCover": "1", "Statuses": "{200}", "JailChoices": "{FALSE}"}]
+    else:
+        covers = [{"MaxReq": "3", "KCover": "2", "Statuses": "{200, 500}", "JailChoices": "{FALSE}"},
+                  {"MaxReq": "3", "KCover": "1", "Statuses": "{200}", "JailChoices": "{FALSE, TRUE}"}]
+    beh_files = []
+    for defs in covers:
+        m = ctx.tlc("Lifecycle", defines=defs, timeout=1500, tag="cover")
+        if m.violated:
+            raise MachineryFault("Lifecycle.tla: mechanism layer violates requirement layer on the model: %s "
+                                 "(a lead, not a verdict - see tlc output)" % m.violated)
+        beh_files.append(m.beh_path)
     # seeded simulation for depth beyond the cover
     sim = ctx.tlc("Lifecycle", cfg="LifecycleSim.cfg", simulate=(400 if quick else 6000), depth=60,
-                  defines={"MaxReq": "3", "KCover": "0", "Statuses": "{200, 500}"}, timeout=900, tag="simulate")
+                  defines={"MaxReq": "3", "KCover": "0", "Statuses": "{200, 500}", "JailChoices": "{FALSE, TRUE}"},
+                  timeout=900, tag="simulate")
     beh_files.append(sim.beh_path)
     allb = os.path.join(ctx.work, "all_beh.jsonl")
     seen = set()
